@@ -70,6 +70,8 @@ class Env:
         self.locks = [usim.Lock() for _ in range(sc.get('nlocks', 0))]
         self.queues = [usim.Queue() for _ in range(sc.get('nqueues', 0))]
         self.chans = [usim.Channel() for _ in range(sc.get('nchans', 0))]
+        # static resources: [is_capacities, capacity]; shares bound by `borrow ... as name` get names >= 100
+        self.res = {i: (usim.Capacities(a=c) if cap else usim.Resources(a=c)) for i, (cap, c) in enumerate(sc.get('res', []))}
         self.scopes = {}
         self.tasks = {}
         self.task_names = {}
@@ -95,6 +97,8 @@ class Env:
             d += [len(q._buffer), 1 if q._closed else 0, len(q._notification._waiting)] + list(q._buffer)
         for c in self.chans:
             d += [len(c._consumer_buffers), 1 if c._closed else 0]
+        for i in range(len(self.sc.get('res', []))):
+            d += [self.res[i].levels.a]
         return d
 
     # ---- events
@@ -494,6 +498,29 @@ class Env:
                     if n and i >= n:
                         break
             self.probe('iter_end', op, x, self.now(), actor)
+        elif op in ('borrow', 'claim'):
+            _, r, d, name, body = s
+            base = self.res[r]
+            self.probe('borrow_req', op, r, d, name, actor, self.now(), base.levels.a)
+            mgr = base.borrow(a=d) if op == 'borrow' else base.claim(a=d)
+            try:
+                async with mgr as share:
+                    self.res[name] = share
+                    self.probe('borrow_in', r, d, name, actor, self.now())
+                    try:
+                        await self.block(body, actor)
+                    finally:
+                        self.probe('borrow_leave', r, d, name, actor, self.now())
+            finally:
+                self.probe('borrow_out', r, d, name, actor, self.now())
+        elif op == 'increase':
+            await self.res[s[1]].increase(a=s[2])
+        elif op == 'decrease':
+            await self.res[s[1]].decrease(a=s[2])
+        elif op == 'set_res':
+            await self.res[s[1]].set(a=s[2])
+        elif op == 'level':
+            self.emit([30, s[1], self.res[s[1]].levels.a])
         elif op == 'chan_put':
             self.probe('chan_put', s[1], s[2], self.now(), actor, bool(self.chans[s[1]].closed))
             await self.chans[s[1]].put(s[2])
@@ -749,6 +776,16 @@ def coq_stmt(s):
         return '(SInterval %s %d %s)' % (cx(s[1]), s[2], coq_block(s[3]))
     if op == 'delay_iter':
         return '(SDelayIter %s %d %s)' % (cx(s[1]), s[2], coq_block(s[3]))
+    if op in ('borrow', 'claim'):
+        return '(SBorrow %d %s %s %d %s)' % (s[1], cz(s[2]), cbool(op == 'claim'), s[3], coq_block(s[4]))
+    if op == 'increase':
+        return '(SIncrease %d %s)' % (s[1], cz(s[2]))
+    if op == 'decrease':
+        return '(SDecrease %d %s)' % (s[1], cz(s[2]))
+    if op == 'set_res':
+        return '(SSetRes %d %s)' % (s[1], cz(s[2]))
+    if op == 'level':
+        return '(SLevel %d)' % s[1]
     if op == 'chan_put':
         return '(SChanPut %d %s)' % (s[1], cz(s[2]))
     if op == 'chan_get':
@@ -767,10 +804,10 @@ def coq_stmt(s):
 def coq_scenario(sc):
     till = 'None' if sc.get('till') is None else '(Some %s)' % cx(sc['till'])
     return ('{| sc_start := %s; sc_till := %s; sc_roots := %s; sc_nflags := %d; sc_tracked := %s; '
-            'sc_nlocks := %d; sc_nqueues := %d; sc_nchans := %d |}') % (
+            'sc_nlocks := %d; sc_nqueues := %d; sc_nchans := %d; sc_res := %s |}') % (
         cx(sc['start']), till, clist([coq_block(r) for r in sc['roots']]), sc.get('nflags', 0),
         clist([cz(z) for z in sc.get('tracked', [])]), sc.get('nlocks', 0), sc.get('nqueues', 0),
-        sc.get('nchans', 0))
+        sc.get('nchans', 0), clist(['(%s, %s)' % (cbool(cap), cz(c)) for cap, c in sc.get('res', [])]))
 
 
 def coq_trace(tr):
